@@ -102,6 +102,59 @@ def in_d32_region(p):
     return False
 
 
+def engine_fast(pattern, subject, budget=0.4):
+    """Whether the third-party `regex` engine answers fullmatch and search for this (translated) pattern and subject within
+    `budget` seconds each.  The property is about WHAT match()/search() answer, not how long the backtracking engine
+    takes; a pair on which it backtracks for minutes (nested quantifiers over a long subject) would stall the whole check
+    — met once at seed 7 — so such pairs are skipped and counted, not explored."""
+    try:
+        import regex
+        from jsonpath_rfc9535.function_extensions._pattern import map_re
+    except Exception:  # noqa: BLE001
+        return True
+    if not isinstance(pattern, str) or not isinstance(subject, str):
+        return True
+    if ENGINE_STUCK:
+        return False
+
+    def probe():
+        rx = map_re(pattern)
+        regex.fullmatch(rx, subject, timeout=budget)
+        regex.search(rx, subject, timeout=budget)
+
+    kind, val = bounded(probe, 4.0)
+    if kind == "timeout":
+        ENGINE_STUCK.append((pattern, subject))
+        return False
+    if kind == "exc" and isinstance(val, TimeoutError):
+        return False
+    return True
+
+
+ENGINE_STUCK = []
+
+
+def bounded(fn, seconds=4.0):
+    """Run `fn` in a daemon thread and wait at most `seconds`: ('ok', value), ('exc', exception) or ('timeout', None).  The
+    third-party engine releases the GIL while it matches, so a call that does not come back (met once: seed 7, a pair that
+    is instant in a fresh process) is abandoned — it cannot be killed — and the case is skipped and counted instead of
+    stalling the whole check."""
+    import threading
+
+    box = {}
+
+    def run():
+        try:
+            box["v"] = ("ok", fn())
+        except BaseException as exc:  # noqa: BLE001
+            box["v"] = ("exc", exc)
+
+    t = threading.Thread(target=run, daemon=True)
+    t.start()
+    t.join(seconds)
+    return box.get("v", ("timeout", None))
+
+
 def explore_c11(rng, tier, res, deep=False):
     import jsonpath_rfc9535 as jp
     from jsonpath_rfc9535.function_extensions._pattern import map_re
@@ -133,13 +186,26 @@ def explore_c11(rng, tier, res, deep=False):
             s = gen_subject(rng, p)
             doc = [{"s": s, "p": p}]
             res.evaluations += 1
-            try:
-                m = bool(cm.find(doc))
-                sr = bool(cs.find(doc))
-            except Exception as exc:  # noqa: BLE001
+            if not engine_fast(p, s):
+                res.count("engine-too-slow-skipped")
+                continue
+            if ENGINE_STUCK:
+                continue
+            kind, val = bounded(lambda: (bool(cm.find(doc)), bool(cs.find(doc))))
+            if kind == "timeout":
+                # the abandoned call may hold the engine's internal locks: every later call into it would block, so the
+                # rest of the real-side exploration of this run is skipped (what was gathered so far is still judged)
+                ENGINE_STUCK.append((p, s))
+                res.count("engine-did-not-return")
+                res.notes.append("the third-party regex engine did not return within 4 s for pattern " + repr(p)[:120] + " on subject " + repr(s)[:60] +
+                                 " (instant in a fresh process): the remaining real-side regex cases of this run were skipped")
+                continue
+            if kind == "exc":
+                exc = val
                 res.violations.append({"property": "C11", "query": "match/search", "document": doc, "observed": "PY:" + type(exc).__name__ + ": " + str(exc)[:100],
                                        "expected": "true or false", "what": "match()/search() raised"})
                 continue
+            m, sr = val
             lines.append(f"ireg\t{wire.enc_str(p)}\t{wire.enc_str(s)}\t{cats_of(s)}")
             expect.append((p, s, m, sr))
     # the pattern written as a string LITERAL in the query text (what a compile-time treatment of "simple" patterns would
@@ -152,6 +218,8 @@ def explore_c11(rng, tier, res, deep=False):
                 "-", ",", "a:b", "a=b", "a/b", "a\"b", "a'b", "a&b", "a~b", "a<b>", "a#b", "a@b", "a!b", "a%b", "a_b", "a;b", "😀", "a\n"]
     lit_pats += [gen_re(rng) for _ in range(60 if tier != "thorough" else 1500)]
     for pt in lit_pats:
+        if ENGINE_STUCK:
+            break
         if "$" in pt or "^" in pt.replace("[^", "["):
             continue
         if any(ord(ch) < 0x20 for ch in pt):
@@ -165,6 +233,9 @@ def explore_c11(rng, tier, res, deep=False):
         for sb in [pt, pt + "x", "x" + pt, pt[:-1] if pt else "a"] + [gen_subject(rng, pt) for _ in range(2)]:
             doc = [{"s": sb}]
             res.evaluations += 1
+            if not engine_fast(pt, sb):
+                res.count("engine-too-slow-skipped")
+                continue
             try:
                 m = bool(qm.find(doc))
                 sr = bool(qs_.find(doc))
@@ -213,7 +284,7 @@ def explore_c11(rng, tier, res, deep=False):
             res.violations.append({"property": "C11", "query": "$[?search(@.s, @.p)]", "document": [{"s": s, "p": p}],
                                    "observed": sr, "expected": sm == "1", "what": "search() differs from I-Regexp substring matching"})
     # non-string arguments of every kind, in both positions
-    for bad in [None, True, 0, 1.5, [], ["a"], {}, {"a": 1}]:
+    for bad in ([] if ENGINE_STUCK else [None, True, 0, 1.5, [], ["a"], {}, {"a": 1}]):
         for doc in ([{"s": bad, "p": "a"}], [{"s": "a", "p": bad}], [{"p": "a"}], [{"s": "a"}]):
             res.evaluations += 1
             try:
@@ -227,7 +298,7 @@ def explore_c11(rng, tier, res, deep=False):
     # text), very long, or made of astral characters only — judged on the real side alone (such strings are outside the
     # model's Char): no exception, and for patterns that are plain ASCII text the answer is substring / equality
     odd_subjects = ["x\udc00", "\ud800x", "a\udc00b\ud800", "\udfff", "x" * 70000, "\U0001f600" * 3000, "ab" + "\ud83d", "\x00x\x00", "x\ufffe", "\ufeffx"]
-    for subj in odd_subjects:
+    for subj in ([] if ENGINE_STUCK else odd_subjects):
         for pat in ("x", "ab", "a", "zz", "x+", "[a-x]*", "."):
             doc = [{"s": subj, "p": pat}]
             res.evaluations += 1
